@@ -35,7 +35,45 @@ let fan_in_op = function
     L (of_boolv (fan_in evs (natv n)) :: List.map (fun (_, r) -> of_run_result r) evs)
   | e -> bad "fan_in: %s" (to_string e)
 
+(* verify_end (C10, run level; Model/VerdictRun.v):
+     (pool n (k outcome)...)     the arrivals in the order received, n problems submitted
+     (seq fate...)               fate = outcome | (died): `prove` panics for that problem
+   Answer: (end (count "<line>")|(nocount) (verdict "<line>")|(noverdict) <exit status> <results printed>) *)
+let of_run_end (e : M.VerdictRun.run_end) =
+  let open M.VerdictRun in
+  let printed = match e with Finished (r, _, _) -> r | Panicked r -> r in
+  L [ A "end";
+      (match count_line e with Some l -> L [ A "count"; of_str l ] | None -> L [ A "nocount" ]);
+      (match verdict_line e with Some l -> L [ A "verdict"; of_str l ] | None -> L [ A "noverdict" ]);
+      of_natv (exit_status e); of_natv printed ]
+
+let verify_end_op = function
+  | L (A "pool" :: n :: evs) ->
+    let evs = List.map (function L [ k; o ] -> (natv k, prove (outcome o)) | e -> bad "event: %s" (to_string e)) evs in
+    of_run_end (M.VerdictRun.pool_end evs (natv n))
+  | L (A "seq" :: fates) ->
+    let fate = function L [ A "died" ] -> None | o -> Some (prove (outcome o)) in
+    of_run_end (M.VerdictRun.sequential_end (List.map fate fates))
+  | e -> bad "verify_end: %s" (to_string e)
+
+(* prover_config: (time_limit instances cores ncpu), decimal numerals of any size.
+   Answer: (rejected) when a value is not a usize (clap refuses it), (panic), or
+   (ok <instances> seq|pool (<argv>...)) *)
+let prover_config_op = function
+  | L [ t; i; c; ncpu ] ->
+    let open M.VerdictRun in
+    let o = { time_limit = nint t; prover_instances = nint i; prover_cores = nint c } in
+    if not (options_ok o) then L [ A "rejected" ]
+    else (
+      match (instances o (nint ncpu), is_sequential o (nint ncpu)) with
+      | Some k, Some sq ->
+        L [ A "ok"; of_nint k; A (if sq then "seq" else "pool"); of_list of_str (prover_argv o (nint ncpu)) ]
+      | _ -> L [ A "panic" ])
+  | e -> bad "prover_config: %s" (to_string e)
+
 let () =
+  Ops.register "verify_end" verify_end_op;
+  Ops.register "prover_config" prover_config_op;
   Ops.register "fan_in" fan_in_op;
   Ops.register "status_from_str" (fun e -> of_status_result (status_of_stdout (str e)));
   Ops.register "prover_output" (function
